@@ -65,6 +65,19 @@ func main() {
 				fmt.Println(n)
 			}
 		}
+	case "describe":
+		ids := []string{}
+		for id := range core.Registry {
+			ids = append(ids, id)
+		}
+		sort.Strings(ids)
+		fmt.Println("| property | workload | build | cases quick / thorough |")
+		fmt.Println("|---|---|---|---|")
+		for _, id := range ids {
+			for _, w := range core.Registry[id].Workloads {
+				fmt.Printf("| %s | %s | %s | %d / %d |\n", id, w.Name, w.Variant, w.N("quick"), w.N("thorough"))
+			}
+		}
 	case "list":
 		ids := []string{}
 		for id := range core.Registry {
